@@ -113,7 +113,11 @@ extern "C" void c16_flags()
 {
   static Context root(1, 2);
   bool trusted = in_bool(0), other = in_bool(1);
+  /* from any earlier setting (a host that trusted its own set-up and then drops the privilege, or the reverse) */
+  unsigned char pre = in_uchar(2); root._flags = pre;
   root.trusted(trusted);
+  verif_assert(root.trusted() == trusted, "C16: trusted(b) leaves the context trusted exactly when b is true, whatever it was before");
+  verif_assert((unsigned char)(root._flags & ~Context::FLAG_TRUSTED) == (unsigned char)(pre & ~Context::FLAG_TRUSTED), "C16: trusted(b) changes no other setting");
   int before = root._flags;
   root.trace(other);
   verif_assert(root.trusted() == trusted && root._flags == before, "C16: the trusted flag is changed by trusted() only");
@@ -123,5 +127,8 @@ extern "C" void c16_flags()
   VX_WITNESS();
   verif_assert(shell->trusted() == trusted && rt->trusted() == trusted && cl->trusted() == trusted, "C16: clones and child contexts inherit the trusted flag");
   root.trusted(!trusted);
+  verif_assert(root.trusted() == !trusted, "C16: the setting can be reversed (a trusted context can be made untrusted again)");
   verif_assert(cl->trusted() == trusted, "C16: a clone keeps its own flag afterwards");
+  cl->trusted(!trusted);
+  verif_assert(cl->trusted() == !trusted && root.trusted() == !trusted, "C16: a clone of a trusted template can be untrusted on its own");
 }
